@@ -183,6 +183,7 @@ structure StoreOK (ρ : RevCtx) (D : List Row → Prop) (store : List Row) : Pro
   uniq : ∀ r1 r2, r1 ∈ store → r2 ∈ store → r1.kid = r2.kid → r1.created = r2.created → r1 = r2
   rev : ∀ τ m0, ρ = some (τ, m0) → (∃ r ∈ store, r.kid = m0.kid ∧ r.created = m0.created) ∧
     ∀ r ∈ store, r.kid = m0.kid → r.created = m0.created → r.revoked = true
+  nz : ∀ r ∈ store, r.created ≠ 0 ∧ ∀ p, r.parent = some p → p.created ≠ 0
   delta : D store
 
 structure St (ρ : RevCtx) (D : List Row → Prop) (t : Int) (w : World) : Prop where
